@@ -52,3 +52,15 @@ package batch
 //@   call Mutex.Unlock#1 assert f.MaxSize > 0 && len(bg.args) == f.MaxSize ==> !((fs in bctx.pendingBatchGroups) && bctx.pendingBatchGroups[fs] == bg)
 //@   ensures !existed ==> ndone == 1 && nmany <= 1
 //@   ensures existed ==> ndone == 0 && nmany == 0
+
+// A joiner does nothing but wait for the group's done channel: it returns only after the creator has set result / err and
+// closed the channel - never earlier on some other event (its own context being cancelled, say), because the result slot
+// it is about to read is written by the creator.
+//@ func Func.Invoke$1
+//@   assume deref(bg) != nil                  // the group was looked up or created by the enclosing call
+//@   nocall select.recv, select.send, send
+//@   ghost nwait int
+//@   entry ghost nwait = 0
+//@   call recv assert arg0 == bg.doneCh
+//@   call recv ghost nwait = nwait + 1
+//@   ensures nwait == 1
